@@ -53,7 +53,10 @@ def run_job(job, work):
             raise C.Machinery("driver %s did not finish: status=%r rc=%d\n%s" % (job.name, status, rc, out[-3000:]))
         job.trace = tp
     tp = job.trace
-    ok, matched, total, tout = C.validate_trace(job.module, job.cfg, tp, work, focus=job.focus, env=job.env)
+    t1 = time.time()
+    ok, matched, total, tout = C.validate_trace(job.module, job.cfg, tp, work, focus=job.focus, env=job.env, timeout=3000)
+    if time.time() - t1 > 120:
+        C.log("(validation of %s took %.0fs for %d lines)" % (job.name, time.time() - t1, total))
     job.lines = total
     job.accepted = ok
     job.matched = matched
@@ -730,7 +733,7 @@ def c14(pid, tier, work, replay):
     for i in range(sized(tier, 2, 20)):
         for lazy in ("0", "1"):
             runs.append(("c14-race-%s-%d" % (lazy, i), "viprace",
-                         ["rpcstress", str(s * 100 + 50 + i), sized(tier, "6", "8"), str(sized(tier, 15, 60)), "pipe", lazy, "@TRACE", "@STATUS"], "real"))
+                         ["rpcstress", str(s * 100 + 50 + i), sized(tier, "6", "8"), str(sized(tier, 15, 20)), "pipe", lazy, "@TRACE", "@STATUS"], "real"))
     # wide: 40 (thorough: also 45) callers whose handlers each call back once; deep: one chain of 80 nested call-backs
     for transport in ("mem", "pipe"):
         runs.append(("c14-wide-%s" % transport, "vipsim", ["rpcwide", "1", str(s), "40", "2", transport, "0", "@TRACE", "@STATUS"], "fake"))
